@@ -1994,3 +1994,64 @@ func withSmallHelpers(fn *ssa.Function) []*ssa.Function {
 	}
 	return out
 }
+
+// sitesVia returns the instructions of fn that stand for an effect matched by
+// match: the matching instructions of fn itself, and the calls of fn to an
+// unexported repository function with no other caller whose body (two levels
+// deep) contains a matching instruction — the tail of a function split off
+// into a helper. Gating and ordering are then judged at the call.
+func sitesVia(w *World, fn *ssa.Function, match func(ssa.Instruction) bool) []ssa.Instruction {
+	var out []ssa.Instruction
+	var contains func(g *ssa.Function, depth int) bool
+	contains = func(g *ssa.Function, depth int) bool {
+		for _, x := range withClosures(g) {
+			for _, b := range x.Blocks {
+				for _, in := range b.Instrs {
+					if match(in) {
+						return true
+					}
+					if ci, ok := in.(ssa.CallInstruction); ok && depth > 0 {
+						if h := ci.Common().StaticCallee(); splitOffHelper(w, h) && contains(h, depth-1) {
+							return true
+						}
+					}
+				}
+			}
+		}
+		return false
+	}
+	for _, x := range withClosures(fn) {
+		for _, b := range x.Blocks {
+			for _, in := range b.Instrs {
+				if match(in) {
+					out = append(out, in)
+					continue
+				}
+				if ci, ok := in.(ssa.CallInstruction); ok {
+					if h := ci.Common().StaticCallee(); splitOffHelper(w, h) && contains(h, 1) {
+						out = append(out, in)
+					}
+				}
+			}
+		}
+	}
+	return out
+}
+
+// splitOffHelper: an unexported repository function with a body and exactly one
+// static call site in non-test code.
+func splitOffHelper(w *World, h *ssa.Function) bool {
+	if h == nil || h.Blocks == nil || h.Pkg == nil || !strings.HasPrefix(h.Pkg.Pkg.Path(), modPath) {
+		return false
+	}
+	if o := h.Object(); o == nil || o.Exported() {
+		return false
+	}
+	n := 0
+	for _, ci := range w.Callers(h) {
+		if !strings.HasSuffix(w.fileOf(ci.Parent().Pos()), "_test.go") {
+			n++
+		}
+	}
+	return n == 1
+}
